@@ -6,6 +6,7 @@ package forkfx
 import (
 	"context"
 	"os"
+	"path/filepath"
 	"runtime"
 	"sort"
 	"sync"
@@ -295,4 +296,29 @@ func GoodTallyBeforeResult(items []int, workers int) int {
 		<-results
 	}
 	return total
+}
+
+// BadWalkSkipsLinkedDirs answers SkipDir for a link: filepath.Walk then drops the rest of the directory.
+func BadWalkSkipsLinkedDirs(dir string, visit func(string)) error {
+	return filepath.Walk(dir, func(path string, info os.FileInfo, err error) error {
+		if err != nil {
+			return err
+		}
+		visit(path)
+		if info.Mode()&os.ModeSymlink != 0 {
+			return filepath.SkipDir
+		}
+		return nil
+	})
+}
+
+// GoodWalkVisitsAll offers every entry.
+func GoodWalkVisitsAll(dir string, visit func(string)) error {
+	return filepath.Walk(dir, func(path string, info os.FileInfo, err error) error {
+		if err != nil {
+			return err
+		}
+		visit(path)
+		return nil
+	})
 }
